@@ -368,6 +368,6 @@ func runCRS(rs *runState, idx *int) {
 			continue
 		}
 		c.Count("crs_patterns", 1)
-		rs.checkPattern("crs", p, derivedInputs(p, rs.multiline, c.Thorough()))
+		rs.checkPattern("crs", p, derivedInputs(p, rs.multiline, c.Thorough()), true)
 	}
 }
